@@ -514,6 +514,33 @@ def run(ctx, repo, tier):
         else:
             ctx.inconclusive("FLOW", "C12.all_taus.tau", "lag argument not recognised as an element of the input array", fa.where,
                              witness=ast.unparse(t) if t is not None else "no argument")
+    # every requested lag gets its matrix: the loop over the taus must not stop early (a `break` assumes an ascending tau array and leaves
+    # the later entries unset / at their placeholder) nor skip a tau without an explicit placeholder being the documented result
+    tau_loops = [lp for lp in ast.walk(fa.node) if isinstance(lp, ast.For) and
+                 any(isinstance(c_, ast.Call) and isinstance(c_.func, ast.Attribute) and c_.func.attr == "get_one_tau_transition_matrix" for c_ in ast.walk(lp))]
+    ctx.instance("DOM", max(1, len(tau_loops)))
+    brk = [b for lp in tau_loops for b in ast.walk(lp) if isinstance(b, (ast.Break, ast.Return))]
+    cond_calls = []
+    for lp in tau_loops:
+        for c_ in ast.walk(lp):
+            if isinstance(c_, ast.Call) and isinstance(c_.func, ast.Attribute) and c_.func.attr == "get_one_tau_transition_matrix":
+                p_ = getattr(c_, "_parent", None)
+                while p_ is not None and p_ is not lp:
+                    if isinstance(p_, ast.If):
+                        cond_calls.append(p_)
+                    p_ = getattr(p_, "_parent", None)
+    conts = [b for lp in tau_loops for b in ast.walk(lp) if isinstance(b, ast.Continue)]
+    if not tau_loops:
+        ctx.inconclusive("DOM", "C12.all_taus.every", "loop over the lag times not recognised", fa.where)
+    elif brk:
+        ctx.violate("DOM", "C12.all_taus.every", "the loop over the lag times can stop early: the taus after the one that triggers the exit never get "
+                    "their transition matrix (the exit assumes an ascending array of lag times)", fa.where, "break", 
+                    witness="taus = [1, 12, 2] on 10 frames: the matrix for tau = 2 is never computed")
+    elif cond_calls or conts:
+        ctx.inconclusive("DOM", "C12.all_taus.every", "a lag time can be skipped under a condition", fa.where,
+                         witness=ast.unparse((cond_calls or [None])[0].test)[:100] if cond_calls else "continue")
+    else:
+        ctx.ok("DOM", "C12.all_taus.every", "every lag time of the input array gets its transition matrix (no early exit, no skip)", fa.where)
     ctx.require_instances("LIN", 10, "linear-arithmetic obligations on the window code")
     ctx.require_instances("MIRROR", 4, "count emissions")
     ctx.trust(*META["trusted"])
